@@ -91,8 +91,11 @@ def held_locks(stack_or_layers):
             if v.locked():
                 res.append("%s.%s" % (l.__class__.__name__, k))
         except AttributeError:
-            # RLock on older pythons: try a non-blocking acquire from this thread
-            if not v.acquire(False):
+            # RLock (no locked() before 3.14): owned by the calling thread = leaked by it (the census runs outside any
+            # critical section); otherwise a non-blocking acquire tells whether another thread owns it
+            if getattr(v, "_is_owned", lambda: False)():
+                res.append("%s.%s" % (l.__class__.__name__, k))
+            elif not v.acquire(False):
                 res.append("%s.%s" % (l.__class__.__name__, k))
             else:
                 v.release()
